@@ -37,7 +37,7 @@ def main(tier):
                 "move-construct, copy-assign i<-j (incl. self), move-assign i<-j, flag toggle} on 3 slots; a state is a "
                 "distinct canonical string of all visible+hidden fields of all live objects plus the model; every "
                 "transition replays the history on fresh objects and then observes every live object destructively",
-        "bounds": "depth 6 (quick) / 9 (thorough); 2 general slots + 1 construction target; 2-5 constructor variants and "
+        "bounds": "depth 7 (quick) / 9 (thorough); 2 general slots + 1 construction target; 2-5 constructor variants and "
                   "2 entry patterns per class",
         "exhaustive": True,
     }
